@@ -236,4 +236,17 @@ theorem walkBelow_parentsReal (t : FsTree) (hw : t.wf = true) (root p : Path) (k
     (hp : (p, k) ∈ walkBelow root t) : ParentsReal (entsBelow root t) p :=
   fun e he hl => walkBelow_no_link_above t hw root p k hp e he hl
 
+theorem walkBelow_inside (t : FsTree) (root p : Path) (k : WKind) (hp : (p, k) ∈ walkBelow root t) :
+    pathIsInside p root = true := by
+  obtain ⟨n, _, s, rfl, _⟩ := walkBelow_under t root p k hp
+  unfold pathIsInside
+  have h1 : root.length < (root ++ '/' :: n ++ s).length := by simp
+  have h2 : (root ++ ['/']).isPrefixOf (root ++ '/' :: n ++ s) = true := by
+    rw [List.isPrefixOf_iff_prefix]
+    exact ⟨n ++ s, by simp⟩
+  rw [Bool.or_eq_true]
+  right
+  rw [Bool.and_eq_true]
+  exact ⟨by simpa using h1, h2⟩
+
 end Martian.Vdr
